@@ -30,6 +30,11 @@ class SamplerCore:
         self.config = config
         self.state = state
 
+        # Seed the NumPy stream the sampler draws from, so that a given
+        # random_state reproduces the run
+        if config.random_state is not None:
+            np.random.seed(config.random_state)
+
         # Initialize components (moved from Sampler._initialize_steps)
         from .steps.reweight import Reweighter
         from .steps.train import Trainer
